@@ -191,7 +191,11 @@ func variantsImpl(id, repo, verif string, baseClean bool) map[string]interface{}
 		case "skipped", "invalid":
 			fmt.Printf("variant %s/%s %s: %s\n", r.v.kind, r.v.name, r.status, r.note)
 		default:
-			fmt.Printf("variant %-7s %-45s %s\n", r.v.kind, r.v.name, r.status)
+			by := ""
+			if len(r.newKeys) > 0 {
+				by = fmt.Sprintf("  by %s (+%d more)", r.newKeys[0], len(r.newKeys)-1)
+			}
+			fmt.Printf("variant %-7s %-45s %s%s\n", r.v.kind, r.v.name, r.status, by)
 		}
 	}
 	return map[string]interface{}{
